@@ -90,7 +90,7 @@ class PusTcUnit(_SpUnit):
         m = _ecss()
 
         def sph(r):
-            return m.PusTc.from_sp_header(SpacePacketHeader(PacketType.TC, r["apid"], r["seq"], 0), r["svc"], r["sub"], bb(r["data"]), r["src"], r["ack"])
+            return m.PusTc.from_sp_header(SpacePacketHeader(PacketType.TC, r["apid"], r["seq"], 0x0123), r["svc"], r["sub"], bb(r["data"]), r["src"], r["ack"])
 
         def comp(r):
             d = bb(r["data"])
